@@ -634,3 +634,39 @@ def rule_parallel_arrays(ctx):
                     v, ", ".join("%s[%d]" % (a, d) for a, d in sorted(dims.items())), small, dims[small]))
     ctx.floor("PARALLEL", 3, n, "(counters filling several local arrays in lock-step)")
     return n
+
+
+def rule_ref_tables(ctx):
+    """REFTABLE (C20): reference numbers run from 1 to MAX_REF (65535) inclusive.  A table that is indexed by reference number
+    therefore needs MAX_REF + 1 entries; an allocation of exactly MAX_REF entries (or bytes per entry times MAX_REF) whose
+    result is indexed by a variable is one short for the highest legal reference."""
+    prog = ctx.prog
+    n = 0
+    for f in prog.lib_funcs():
+        for _b, _i, st, x in f.nodes(True):
+            if x[0] != "asg" or x[1] != "=" or kind(strip(x[2])) != "var":
+                continue
+            r = strip(x[3])
+            while kind(r) == "cast":
+                r = strip(r[2])
+            if kind(r) != "call" or r[1] not in ("calloc", "malloc"):
+                continue
+            consts = [int_val(a) for a in r[3] if is_int(a)]
+            for a in r[3]:
+                for y in walk(a, True):
+                    if y[0] == "int":
+                        consts.append(y[1])
+            if not any(c in (65535, 65536) for c in consts):
+                continue
+            v = strip(x[2])[1]
+            indexed = any(y[0] == "idx" and kind(strip(y[1])) == "var" and strip(y[1])[1] == v and not is_int(strip(y[2])) for _b2, _i2, _s2, y in f.nodes(True))
+            if not indexed:
+                continue
+            n += 1
+            key = "REFTABLE:%s:%s" % (f.name, v)
+            if 65536 in consts:
+                ctx.holds("REFTABLE", key, f.where(r[5]), "`%s` has MAX_REF + 1 entries" % v, nontrivial=True)
+            else:
+                ctx.violated("REFTABLE", key, f.where(r[5]), "`%s` is allocated with MAX_REF (65535) entries and indexed by a variable: the highest legal reference number 65535 is one past the end" % v)
+    ctx.floor("REFTABLE", 2, n, "(tables sized by MAX_REF and indexed by a variable)")
+    return n
